@@ -70,6 +70,7 @@ func (e *env) seed(t []trow) error {
 type chain struct {
 	CondOn bool
 	Gt     int
+	Eq     int // -1: none; else the chain continues with Or("v = ?", Eq)
 	Order  string // "" asc desc
 	Calls  []call
 	Scope  string // how the condition is supplied: "" Where; plain | session | withctx: through a Scopes function
@@ -88,6 +89,9 @@ func (c chain) apply(db *gorm.DB) *gorm.DB {
 			tx = tx.Scopes(func(d *gorm.DB) *gorm.DB { return d.WithContext(context.Background()).Where("v > ?", gt) })
 		default:
 			tx = tx.Where("v > ?", gt)
+		}
+		if c.Eq >= 0 {
+			tx = tx.Or("v = ?", c.Eq)
 		}
 	}
 	switch c.Order {
@@ -209,7 +213,7 @@ func (e *env) observe(c chain, batchSizes []int) hx.M {
 		o["count_find"], o["count_find_err"] = ids, ec(res.Error)
 	}
 	// Count (without limit / offset), single-record finders (no order/limit/offset of the user's)
-	bare := chain{CondOn: c.CondOn, Gt: c.Gt, Scope: c.Scope}
+	bare := chain{CondOn: c.CondOn, Gt: c.Gt, Eq: c.Eq, Scope: c.Scope}
 	{
 		var n int64
 		res := bare.apply(e.db).Model(&R{}).Count(&n)
@@ -238,12 +242,15 @@ func (e *env) observe(c chain, batchSizes []int) hx.M {
 		o["scan_prim"], o["scan_prim_err"] = n, ec(res.Error)
 	}
 	// FindInBatches (no user Order): limit/offset calls apply
-	bc := chain{CondOn: c.CondOn, Gt: c.Gt, Calls: c.Calls, Scope: c.Scope}
+	bc := chain{CondOn: c.CondOn, Gt: c.Gt, Eq: c.Eq, Calls: c.Calls, Scope: c.Scope}
 	bobs := []hx.M{}
 	for _, bs := range batchSizes {
 		var out []R
 		batches := [][]int64{}
 		res := bc.apply(e.db).FindInBatches(&out, bs, func(tx *gorm.DB, batch int) error {
+			if batch > 200 {
+				return errors.New("more than 200 batches: the batch cursor does not advance")
+			}
 			ids := []int64{}
 			for _, r := range out {
 				ids = append(ids, r.ID)
@@ -285,7 +292,7 @@ func callsJ(c []call) []hx.M {
 }
 
 func event(caseNo int, t []trow, c chain, o hx.M) hx.M {
-	return hx.M{"ev": "Read", "case": caseNo, "table": tableJ(t), "cond": hx.M{"on": c.CondOn, "gt": c.Gt}, "order": c.Order,
+	return hx.M{"ev": "Read", "case": caseNo, "table": tableJ(t), "cond": hx.M{"on": c.CondOn, "gt": c.Gt, "eq": c.Eq}, "order": c.Order,
 		"calls": callsJ(c.Calls), "scope": c.Scope, "obs": o}
 }
 
@@ -325,7 +332,7 @@ func grid(args []string) error {
 		}
 		for lim := 0; lim <= *maxb; lim++ { // 0 = absent
 			for off := -1; off <= *maxb; off++ { // -1 = absent
-				var c chain
+				c := chain{Eq: -1}
 				if lim > 0 {
 					c.Calls = append(c.Calls, call{"limit", lim})
 				}
@@ -375,7 +382,10 @@ func random(args []string) error {
 				return err
 			}
 		}
-		c := chain{CondOn: r.Intn(2) == 0, Gt: r.Intn(7), Order: []string{"", "asc", "desc"}[r.Intn(3)], Scope: []string{"", "", "plain", "session", "withctx"}[r.Intn(5)]}
+		c := chain{CondOn: r.Intn(2) == 0, Gt: r.Intn(7), Order: []string{"", "asc", "desc"}[r.Intn(3)], Scope: []string{"", "", "plain", "session", "withctx"}[r.Intn(5)], Eq: -1}
+		if c.CondOn && c.Scope == "" && r.Intn(3) == 0 {
+			c.Eq = r.Intn(7)
+		}
 		for k := 0; k < r.Intn(5); k++ {
 			v := 1 + r.Intn(8)
 			if r.Intn(4) == 0 {
